@@ -426,7 +426,19 @@ func c19Gen(rt *rapid.T) c19Case {
 		maxSec = 60
 	}
 	sc.Seconds = rapid.IntRange(5, maxSec).Draw(rt, "seconds")
+	deep := rapid.IntRange(0, 9).Draw(rt, "deepbacklog") < 3
+	if deep {
+		// a deep backlog at a low rate: many senders queue in the limiter at once, the queued debt is worth far more
+		// than ten seconds of the allowance
+		low := []int64{1000, 5000, 20000}
+		sc.RxRate, sc.TxRate = rapid.SampledFrom(low).Draw(rt, "deeprx"), rapid.SampledFrom(low).Draw(rt, "deeptx")
+		sc.Streams = rapid.IntRange(6, 10).Draw(rt, "deepstreams")
+		sc.Seconds = rapid.IntRange(30, 60).Draw(rt, "deepseconds")
+	}
 	nw := rapid.OneOf(rapid.IntRange(1, 8), rapid.IntRange(8, 40)).Draw(rt, "nwriters")
+	if deep && nw < 16 {
+		nw = 16 + nw
+	}
 	if nw < sc.Sessions {
 		nw = sc.Sessions
 	}
@@ -445,13 +457,14 @@ func c19Gen(rt *rapid.T) c19Case {
 			if rate >= 1000000 {
 				sz = rapid.SampledFrom([]int{16132, 16132, 8000, 12000}).Draw(rt, "size")
 			} else if rate < 20000 {
-				sz = rapid.SampledFrom([]int{1500, 300, 37, 1}).Draw(rt, "size")
+				// mostly small frames, sometimes one that alone is worth many seconds of the allowance
+				sz = rapid.SampledFrom([]int{1500, 300, 37, 1, 1500, 300, 16132, 8000}).Draw(rt, "size")
 			} else {
 				sz = rapid.SampledFrom([]int{16132, 8000, 1500, 300, 37}).Draw(rt, "size")
 			}
 			w.Sizes = append(w.Sizes, sz)
 		}
-		if rapid.Bool().Draw(rt, "bursty") {
+		if !deep && rapid.Bool().Draw(rt, "bursty") {
 			w.PauseEvery = rapid.IntRange(1, 50).Draw(rt, "pauseevery")
 			w.PauseMs = rapid.SampledFrom([]int{1, 50, 900, 1000, 2500}).Draw(rt, "pausems")
 		}
